@@ -24,7 +24,10 @@ def run(ck, progs):
     ck.rule("C15.6", "the destination buffer is chosen by the routing macro applied to the message's destination")
     ck.rule("C15.7", "the plain initialisation of a thread's buffer is separated by a thread barrier from every call that can reach a producer "
                      "(LP_INIT handlers of other threads may already schedule events for this thread)")
+    ck.rule("C15.8", "msg_queue_extract removes from the private heap the event it hands out (its value comes from heap_extract), and "
+                     "msg_queue_time_peek only reads the heap (heap_min, no extraction)")
     for cfg, P in progs.items():
+        _extract_consumes(ck, P, cfg)
         _run(ck, P, cfg)
         _init_before_producers(ck, P, cfg)
 
@@ -219,3 +222,33 @@ def _init_before_producers(ck, P, cfg):
         else:
             ck.holds("C15.7", inst, c.where, "a thread barrier separates msg_queue_init() from %s" % sorted({x.callee for x in prods}), cfg)
     ck.expect("C15.7", n, 1, "call sites of msg_queue_init")
+
+
+def _extract_consumes(ck, P, cfg):
+    fx, fp = P.fn("msg_queue_extract"), P.fn("msg_queue_time_peek")
+
+    def uses(f, macro):
+        return [n for n in f.walk() if n.k == "StmtExpr" and n.macros and n.macros[-1] == macro] + [n for n in f.walk() if n.k != "StmtExpr" and n.macros and n.macros[0] == macro and (n.parent is None or macro not in n.parent.macros)]
+    inst = "extract-consumes@msg_queue_extract"
+    rets = [r for r in fx.walk() if r.k == "ReturnStmt" and r.children and r.children[0].k != "Null"]
+    takes = [n for n in fx.walk() if any(m_ == "heap_extract" for m_ in n.macros)]
+    peeks_in_value = []
+    for r in rets:
+        e = Q.resolve_local(fx, r.children[0])
+        for x in e.walk():
+            if any(m_ == "heap_min" for m_ in x.macros) and not any(m_ == "heap_extract" for m_ in x.macros):
+                peeks_in_value.append(x)
+    if not rets:
+        ck.inconclusive("C15.8", inst, fx.where, "no returned value recognised", cfg)
+    elif peeks_in_value and not takes:
+        ck.violated("C15.8", inst, peeks_in_value[0].where, "msg_queue_extract hands out the heap's minimum without removing it: the same event is extracted and processed again and again", cfg)
+    elif not takes:
+        ck.inconclusive("C15.8", inst, fx.where, "the handed-out event does not come from heap_extract / heap_min (another queue)", cfg)
+    else:
+        ck.holds("C15.8", inst, takes[0].where, "the value handed out comes from heap_extract on the private heap", cfg)
+    inst = "peek-preserves@msg_queue_time_peek"
+    tp = [n for n in fp.walk() if any(m_ == "heap_extract" for m_ in n.macros)]
+    if tp:
+        ck.violated("C15.8", inst, tp[0].where, "msg_queue_time_peek removes an event from the heap: that event is never processed and the GVT is computed without it", cfg)
+    else:
+        ck.holds("C15.8", inst, fp.where, "only reads the heap", cfg)
